@@ -46,6 +46,12 @@ def _own_model(a) -> bool:
     for x in term_symbols(o):
         if isinstance(x, Sym) and x.name.rstrip("'") in _LOOP_VARS:
             return False
+    from sa.terms import subterms_of
+    for x in subterms_of(o):
+        # the receiver a bound method was given when it was stored away (`self._poll = model.is_running`): the model of that
+        # moment, not the model the scheduler belongs to now (`manager.model` is a documented, assignable attribute)
+        if isinstance(x, Attr) and x.name == '__self__':
+            return False
     return True
 
 
@@ -83,6 +89,32 @@ def _not_running_established(cx, p):
     return None
 
 
+def _is_hook(t) -> bool:
+    """A public method with an empty body (docstring / pass / bare return): it exists to be overridden."""
+    import ast
+    if t.cls is None or t.name.startswith('_') or t.is_property:
+        return False
+    body = [b for b in t.node.body if not (isinstance(b, ast.Expr) and isinstance(b.value, ast.Constant))]
+    return all(isinstance(b, ast.Pass) or (isinstance(b, ast.Return) and (b.value is None or (isinstance(b.value, ast.Constant) and b.value.value is None)))
+               for b in body)
+
+
+def _documented_callers(cx: Cx, k0: str):
+    """`k0` itself when the pinned API has it; for a function new to the API, the documented functions that (transitively) call it."""
+    out, seen, stack = set(), set(), [k0]
+    while stack:
+        k = stack.pop()
+        if k in seen:
+            continue
+        seen.add(k)
+        f = cx.prog.functions.get(k)
+        if f is None or not cx.walker.is_new_function(f):
+            out.add(k)
+            continue
+        stack.extend(c for c, cs in cx.effects.callees.items() if k in cs and c != k)
+    return out
+
+
 def run(cx: Cx):
     prog = cx.prog
     ms = prog.cls(CORE + 'ModelStatus')
@@ -110,6 +142,44 @@ def run(cx: Cx):
     if not any(s.owner_q == comp.qualname for s in sites):
         cx.violation('R-DISC', comp.qualname, 'complete-stores-complete', "Model.complete() does not store COMPLETE",
                      where=comp.where)
+
+    # ... on every path: a completion request is never dropped.  A path without the store is accepted only when the status FIELD was
+    # read and found complete already; a question put to an overridable method of the model (`if self.is_running():`) is answered
+    # by the subclass, which may say "not running" for reasons of its own (a pause, a budget) while the status is still RUNNING
+    import ast as _ast0
+    n_cp = 0
+    for p in cx.walker.paths(comp, WalkOptions(unroll=1)):
+        if p.end == 'raise':
+            continue
+        n_cp += 1
+        if any(e.kind == 'store' and e.data.get('loc') == SLOC for e in p.events):
+            continue
+        selfn = comp.params[0] if comp.params else 'self'
+        virt = None
+        for e in p.events:
+            raw = e.data.get('raw') if e.kind == 'cond' else None
+            for n in (_ast0.walk(raw) if raw is not None else ()):
+                if isinstance(n, _ast0.Call) and isinstance(n.func, _ast0.Attribute) and isinstance(n.func.value, _ast0.Name) \
+                        and n.func.value.id == selfn and not n.func.attr.startswith('_') and comp.cls is not None \
+                        and prog.lookup_method(comp.cls, n.func.attr):
+                    virt = virt or (e, n.func.attr)
+        known_done = any(status_atom_kind(cx, a) == 'not-running' and implies(p.cond, a) is None and _status_owner(a) == Sym(selfn)
+                         for a in atoms_of(p.cond))
+        if virt is not None:
+            cx.violation('R-DISC', comp.qualname, 'completion-request-never-dropped',
+                         f"Model.complete() skips the status store when self.{virt[1]}() says so: the method is part of the documented, "
+                         f"overridable API, and a subclass that narrows it (a pause flag, a budget) makes complete() a silent no-op while "
+                         f"the status is still RUNNING - the model later reports itself as running again", where=cx.where(comp, virt[0].line),
+                         path=p.lines())
+            break
+        if not known_done:
+            cx.violation('R-DISC', comp.qualname, 'completion-request-never-dropped',
+                         f"a path of Model.complete() [{p.cond!r}] returns without storing COMPLETE and without having found the status "
+                         f"complete already", where=cx.where(comp, p.last.line if p.last else None), path=p.lines())
+            break
+    else:
+        if n_cp:
+            cx.ok('R-DISC', f"every path of Model.complete() stores COMPLETE ({n_cp} path(s))", where=cx.where(comp), function=comp.qualname)
 
     isr = cx.fn(CORE + 'Model.is_running')
     # completion is a fact about the model: the status lives in the model object itself, not in an object the model merely refers to
@@ -198,6 +268,13 @@ def run(cx: Cx):
                              f"execute_systems on a completed model still performs: {(writes or ['System.execute'])[0]}",
                              where=cx.where(fn, nre.line), path=p.lines())
                 continue
+            warns = [e for e in p.events if e.kind == 'call' and str(e.data.get('callee_name', '')).startswith('warnings.warn')]
+            if warns and p.end != 'raise':
+                cx.violation('R-GUARD', fn.qualname, 'silent-request-stays-silent',
+                             "on a completed model a request that did not ask for the error issues a warning: under -W error / "
+                             "simplefilter('error') the warning is raised as an exception - an error nobody asked for, and not "
+                             "ModelCompleteError", where=cx.where(fn, warns[0].line), path=p.lines())
+                continue
             if throw is not None:
                 t = ATruthy(throw)
                 if p.end == 'raise':
@@ -281,6 +358,20 @@ def run(cx: Cx):
             bad = ('running-test-dominates-every-effect', clocks[0], p,
                    "Model.execute advances the clock on a path that never tested that the model is running")
             break
+    if not bad:
+        # an empty method called on the way is an extension point: what a subclass puts there (weather, bookkeeping, ...) is model
+        # state changing, so it too runs only after the model was found running
+        for p in mps:
+            evs = p.events
+            for i, e in enumerate(evs):
+                hooks = [t for t in (e.data.get('targets') or []) if e.kind == 'call' and _is_hook(t)]
+                if hooks and not _running_edges(cx, evs[:i]):
+                    bad = ('running-test-dominates-every-effect', i, p,
+                           f"Model.execute calls the empty, overridable {hooks[0].qualname}() on a path that has not found the model "
+                           f"running: whatever a subclass does there still happens on every request after completion")
+                    break
+            if bad:
+                break
     if not bad:
         # every other change of shared state a request makes (sorting the queue "to honour edited priorities", counters, ...) also
         # comes after the model was found running: a request on a completed model leaves all model state untouched
@@ -377,12 +468,18 @@ def run(cx: Cx):
         if '#' in k or k == mexec or k.startswith(CORE + 'SystemManager.'):
             continue
         if any(any(t.qualname in steppers for t in c.data.get('targets', [])) for c in calls) and k in cx.prog.functions:
-            drivers.append(k)
+            # a helper the documented API does not have is part of the documented functions that call it
+            # (a helper of Model.execute / the scheduler is covered there, inlined; any other helper that steps a model is a driver
+            # in its own right - its loop is where the running test belongs)
+            outside = [r for r in _documented_callers(cx, k)
+                       if r in cx.prog.functions and r != mexec and not r.startswith(CORE + 'SystemManager.') and '#' not in r]
+            if outside and k not in drivers:
+                drivers.append(k)
     cx.floor('functions that step a model (batch drivers)', len(drivers), 1)
     for q in sorted(drivers):
         d = cx.fn(q)
         n = 0
-        for p in cx.walker.paths(d, WalkOptions(unroll=2)):
+        for p in cx.walker.paths(d, WalkOptions(unroll=2, inline_full=frozenset({'<private>'}))):
             evs = p.events
             for i, e in enumerate(evs):
                 if e.kind == 'call' and any(t.qualname in steppers for t in e.data.get('targets', [])):
